@@ -5,6 +5,8 @@ import random
 
 import yaml
 
+from .C14 import ODD_NS
+
 from ..absstate import Layout, walk_files
 from ..common import STORE_ALGOS, DEFAULT_NS, new_scratch, rmtree, split_seeds, ncpu, load_repo, clear_atexit_tmp_handlers
 from ..gen import chunk, make_content, adversarial_id
@@ -84,7 +86,7 @@ def run_shard(cfgs, draws, sub_seed, locale_mode=None):
             if not locale_mode:
                 res.count("configurations")
             for r in range(draws):
-                ns = rng.choice([DEFAULT_NS, "urn:x:" + adversarial_id(rng, 8).replace("\x00", "")])
+                ns = rng.choice([DEFAULT_NS, "urn:x:" + adversarial_id(rng, 8).replace("\x00", ""), rng.choice(ODD_NS)])
                 if locale_mode:
                     ns = DEFAULT_NS     # (hashstore.yaml is read back by the harness in the child's locale)
                 lay = Layout(d, w, a, ns)
@@ -107,10 +109,21 @@ def run_shard(cfgs, draws, sub_seed, locale_mode=None):
                     files[name] = os.path.join(scratch, "in_" + name)
                     with open(files[name], "wb") as f:
                         f.write(data)
-                st = FHS({"store_path": root, "store_depth": d, "store_width": w, "store_algorithm": a,
-                          "store_metadata_namespace": ns})
                 witness = {"engine": "C15", "config": [d, w, a, ns], "pids": pids, "fmt": fmt,
                            "sizes": [len(cA), len(cB)]}
+                try:
+                    st = FHS({"store_path": root, "store_depth": d, "store_width": w, "store_algorithm": a,
+                              "store_metadata_namespace": ns})
+                except Exception as err:  # noqa
+                    if ns != DEFAULT_NS and isinstance(err, (ValueError, TypeError)):
+                        # a store may restrict the namespaces it accepts (a deliberate refusal): no verdict
+                        res.count("unusual_namespace_refused_at_creation")
+                    else:
+                        witness["error"] = repr(err)[:300]
+                        res.violation({"symptom": "store-creation-failed", "error": type(err).__name__,
+                                       "namespace": "default" if ns == DEFAULT_NS else "unusual"}, witness)
+                    rmtree(root)
+                    continue
                 try:
                     st.store_object(pids[0], files["A"])
                     st.store_object(pids[1], files["A"])
